@@ -39,6 +39,7 @@ def errStr : Err → String
   | .noFreeze => "nofreeze" | .frzNotFound => "frznotfound"
   | .minBal => "minbal" | .maxMinBal => "maxminbal"
   | .grpInconsistent => "grpinconsistent" | .grpEmpty => "grpempty" | .grpIncomplete => "grpincomplete" | .fee => "fee"
+  | .noSpace => "nospace"
 
 /-- the Go messages of `Alive` and `checkDup` do not name the transaction -/
 def gerrStr : GErr → String
@@ -100,6 +101,9 @@ def parseBlock (toks : List String) : Params × Base :=
     | "sink" => ({ P with feeSink := n }, B)
     | "pool" => ({ P with rewardsPool := n }, B)
     | "sp" => ({ P with spSender := n }, B)
+    | "maxbytes" => ({ P with maxBytes := n }, B)
+    | "protobytes" => ({ P with protoBytes := n }, B)
+    | "loadtrack" => ({ P with loadTracking := n == 1 }, B)
     | "ctr" => (P, { B with txnCount := n })
     | _ =>
       if k.startsWith "A" then (P, { B with accts := upsert (nat! (k.drop 1).toString) (parseAcct v) B.accts })
@@ -124,9 +128,16 @@ def parseTxn (s : String) : Option Txn :=
   | some "afrz", 10 => some { hdr .afrz with asset := u 7, freezeAccount := u 8, frozen := u 9 == 1 }
   | _, _ => none
 
-def parseGroup (rest : String) : Option (List Txn) :=
+/-- `t;t;… #sz=a,b,…`: the annotation carries the encoded size of every member that the real evaluation reached -/
+def parseGroup (rest0 : String) : Option (List Txn) :=
+  let (rest, sz) : String × List Nat := match rest0.splitOn " #sz=" with
+    | [r, z] => (r.trimAscii.toString, (z.trimAscii.toString.splitOn ",").map nat!)
+    | _ => (rest0, [])
   if rest.isEmpty then some []
-  else (rest.splitOn ";").mapM parseTxn
+  else
+    match (rest.splitOn ";").mapM parseTxn with
+    | none => none
+    | some ts => some ((ts.zipIdx).map (fun (t, i) => { t with size := sz.getD i 0 }))
 
 /-! dump -/
 
@@ -146,7 +157,7 @@ def acctTok (id : Nat) (a : Account) : String :=
 def dumpStr (x : Ctx) (s : EvalState) : String :=
   let l := s.top
   let ids := knownAssets x l
-  let hd := s!"payset={s.payset.length} fees={l.fees} ctr={counterOf x l}"
+  let hd := s!"payset={s.payset.length} fees={l.fees} ctr={counterOf x l} space={s.txBytes}"
   let as := univ.map (fun id => acctTok id (acctOf x l id))
   let cs := ids.filterMap (fun i => (creatorOf x l i).map (fun cr => s!"C{i}={cr}"))
   let ps := ids.flatMap (fun i => univ.filterMap (fun a => (paramsOf x l (a, i)).map (fun p =>
@@ -154,6 +165,10 @@ def dumpStr (x : Ctx) (s : EvalState) : String :=
   let hs := ids.flatMap (fun i => univ.filterMap (fun a => (holdingOf x l (a, i)).map (fun h =>
     s!"H{i}@{a}={h.amount},{b01 h.frozen}")))
   " ".intercalate (hd :: (as ++ cs ++ ps ++ hs))
+
+/-- the header `Load` written by `endOfBlock`: `ComputeLoad(blockTxBytes, proto.MaxTxnBytesPerBlock)` (regenerated from the source) -/
+def headerLoad (P : Params) (bytes : Nat) : Nat :=
+  if P.loadTracking then Gen.Fees.ComputeLoad (bytes : Int) (P.protoBytes : Int) else 0
 
 def moneyAll (P : Params) (x : Ctx) (l : Layer) : Nat := (univ.map (fun a => balWP P (acctOf x l a))).sum
 
@@ -167,7 +182,7 @@ def step (st : St) (line : String) : St × String :=
   else if line == "dump" then (st, dumpStr st.x st.s)
   else if line == "endblock" then
     ({ st with live := false },
-     s!"end payset={st.s.payset.length} ctr={counterOf st.x st.s.top} all={moneyAll st.P st.x st.s.top}")
+     s!"end payset={st.s.payset.length} ctr={counterOf st.x st.s.top} all={moneyAll st.P st.x st.s.top} load={headerLoad st.P st.s.txBytes}")
   else if line.startsWith "group" then
     match parseGroup ((line.drop 5).toString.trimAscii.toString) with
     | none => (st, "bad-op")
